@@ -476,9 +476,18 @@ func deleteConfigEntryTxn(tx WriteTxn, idx uint64, kind, name string, entMeta *a
 
 	// Attempt to delete the virtual IP associated with this service, if applicable.
 	if configEntryHasVirtualIP(c) {
-		psn := structs.PeeredServiceName{ServiceName: sn}
-		if err := freeServiceVirtualIP(tx, idx, psn, nil); err != nil {
-			return fmt.Errorf("failed to clean up virtual IP for %q: %v", psn.String(), err)
+		// Sidecar proxies and connect-native instances of the service advertise
+		// the virtual IP: keep it while any of them is registered, like the
+		// terminating gateway path does.
+		_, connectNodes, err := serviceNodesTxn(tx, nil, indexConnect, Query{Value: sn.Name, EnterpriseMeta: sn.EnterpriseMeta})
+		if err != nil {
+			return fmt.Errorf("failed connect service lookup for %q: %v", sn.String(), err)
+		}
+		if len(connectNodes) == 0 {
+			psn := structs.PeeredServiceName{ServiceName: sn}
+			if err := freeServiceVirtualIP(tx, idx, psn, nil); err != nil {
+				return fmt.Errorf("failed to clean up virtual IP for %q: %v", psn.String(), err)
+			}
 		}
 	}
 
